@@ -308,6 +308,31 @@ def render_blocks(b):
             b'#..file:\n' + meta)
 
 
+def render_nested(n):
+    """A file whose metadata is JSON nested `depth` levels deep:
+    {'depth': k, 'kind': 'list' | 'dict' | 'unclosed', 'where': 'main' |
+    'file'}."""
+    k = max(1, min(int(n.get('depth', 1)), 300000))
+    kind = n.get('kind')
+
+    if kind == 'dict':
+        body = b'{"a": ' * k + b'1' + b'}' * k
+    elif kind == 'unclosed':
+        body = b'{"a": ' + b'[' * k
+    else:
+        body = b'{"a": ' + b'[' * k + b']' * k + b'}'
+
+    body += b'\n'
+    meta = b': format=json, length=%d\n' % len(body) + body
+    head = b'#diffx: encoding=utf-8, version=1.0\n'
+
+    if n.get('where') == 'file':
+        return head + b'#.change:\n#..file:\n#...meta' + meta
+
+    return head + b'#.meta' + meta + b'#.change:\n#..file:\n' \
+        b'#...meta: format=json, length=9\n{"k": 1}\n'
+
+
 class RawProducer(Actor):
     """Stores pre-rendered bytes, one chunk per step (so a consumer can
     overtake it at chunk boundaries).  Spec: either "foreign": {...} (see
@@ -328,6 +353,8 @@ class RawProducer(Actor):
             data = R.render_foreign(s['foreign'])
         elif 'blocks' in s:
             data = render_blocks(s['blocks'])
+        elif 'nested' in s:
+            data = render_nested(s['nested'])
         elif 'chunks_hex' in s:
             return [bytes.fromhex(c) for c in s['chunks_hex']]
         else:
@@ -412,6 +439,16 @@ def sized_reader_cls(L, bs):
 PREFIXES = [b'', b'From: someone\r\nSubject: a patch\r\n\r\n',
             b'\x00' * 7, b'HTTP/1.1 200 OK\n\n', b'x' * 95, b'y' * 96 + b'\n',
             b'#diffx: version=9.9\n', b'z' * 5000]
+
+
+def _hang_is_a_verdict(world):
+    """The per-scenario CPU allowance ran out inside a library call.  Only
+    where inputs are small by construction (C08: arbitrary small byte
+    strings) does that say something about the library; elsewhere it is
+    about the size of the scenario and is passed up as a harness condition,
+    never turned into a verdict."""
+    if world.scn.get('property') != 'C08':
+        raise SimHang()
 
 
 def consumer_mutates(rec, mode):
@@ -573,6 +610,7 @@ class ReaderActor(Actor):
             self.end = 'cap'
             self.done = True
         except SimHang:
+            _hang_is_a_verdict(world)
             self.end = 'hang'
             self.done = True
         except Exception as e:
@@ -608,6 +646,7 @@ def read_all(world, data, block_size=None, stream='sim', buf=None,
     except SimEventCap:
         end = 'cap'
     except SimHang:
+        _hang_is_a_verdict(world)
         end = 'hang'
     except Exception as e:
         end = 'raise'
@@ -676,6 +715,7 @@ def read_twice(world, data, block_size=None, actor='aux', abandon=None,
     except SimEventCap:
         end = 'cap'
     except SimHang:
+        _hang_is_a_verdict(world)
         end = 'hang'
     except Exception as e:
         end = 'raise'
@@ -746,6 +786,7 @@ class DomLoadActor(Actor):
         except SimEventCap:
             self.end = 'cap'
         except SimHang:
+            _hang_is_a_verdict(world)
             self.end = 'hang'
         except Exception as e:
             self.end = 'raise'
